@@ -142,7 +142,7 @@ Trace execute(J const &plan, std::vector<size_t> const &subset, bool tsf1, RunRe
     if (k == "run") e->run((int)op.at("n").as_int(1), false);
     else if (k == "off" || k == "on") {
       std::string b = op.at("bias").as_str();
-      if (std::find(names.begin(), names.end(), b) != names.end()) e->run_script({"cv", "bias", b, "set", "active", k == "on" ? "1" : "0"});
+      if (std::find(names.begin(), names.end(), b) != names.end()) { e->run_script({"cv", "bias", b, "set", "active", k == "on" ? "1" : "0"}); if (subset.size() > 1) res.counters["fault.bias_switched_off_or_on"]++; }
     }
   }
   out.recs = e->rec;
